@@ -1996,10 +1996,18 @@ impl OffsetConflict {
             // to be invalid. Which is consistent with how they're treated as
             // `OffsetConflict::Reject`. Thus, like any other invalid offset,
             // we fallback to disambiguation (which is handled by the caller).
-            Fold { before, after }
-                if is_equal(given, before) || is_equal(given, after) =>
-            {
-                let kind = Unambiguous { offset: given };
+            //
+            // Note that we use the offset from the time zone and not the
+            // offset given. They are usually the same, but the given offset
+            // might have been rounded to the nearest minute (as is required
+            // when printing RFC 3339 timestamps), in which case, only the
+            // offset from the time zone is precise.
+            Fold { before, .. } if is_equal(given, before) => {
+                let kind = Unambiguous { offset: before };
+                AmbiguousTimestamp::new(dt, kind)
+            }
+            Fold { after, .. } if is_equal(given, after) => {
+                let kind = Unambiguous { offset: after };
                 AmbiguousTimestamp::new(dt, kind)
             }
             _ => amb,
@@ -2071,8 +2079,13 @@ impl OffsetConflict {
                     tzname = tz.diagnostic_name(),
                 ))
             }
-            Fold { .. } => {
-                let kind = Unambiguous { offset: given };
+            Fold { before, after } => {
+                // We use the offset from the time zone and not the offset
+                // given, since the latter might have been rounded to the
+                // nearest minute.
+                let offset =
+                    if is_equal(given, before) { before } else { after };
+                let kind = Unambiguous { offset };
                 Ok(AmbiguousTimestamp::new(dt, kind).into_ambiguous_zoned(tz))
             }
         }
